@@ -183,9 +183,14 @@
           (unless (= (string tmp) (string tmp2)) (buffer/push out "!S" tmp2))))))
   (string out))
 
+# every result ends with the field END: when the process dies, the output file can end in the
+# middle of an already finished item's line (stdio flushes whole blocks), and the batch runner
+# would take that fragment for a result. check.py re-runs items whose END is missing.
 (batch-run
   (fn [item]
-    (case (item 0)
-      "m" (do-match (item 1) (item 2))
-      "api" (do-api (item 1) (item 2) (item 3))
-      (error (string "unknown item kind " (item 0))))))
+    (string
+      (case (item 0)
+        "m" (do-match (item 1) (item 2))
+        "api" (do-api (item 1) (item 2) (item 3))
+        (error (string "unknown item kind " (item 0))))
+      "\tEND")))
